@@ -267,6 +267,52 @@ pub fn run(tier: Tier, shard: Shard, stats: &mut Stats) {
             }
         }
     }
+    // every kind of placeholder with a width renders exactly that many columns when its content fits
+    {
+        let catcher = LineCatcher::new(200);
+        for w in 0..=12usize {
+            for (align, a) in [('<', "<"), ('^', "^"), ('>', ">")] {
+                for (key, content) in [("prefix", "pre".to_string()), ("pos", "7".to_string()), ("len", "9".to_string()), ("zz", String::new()), ("bar", String::new()), ("spinner", "x".to_string())] {
+                    case += 1;
+                    if !shard.owns(case) {
+                        continue;
+                    }
+                    stats.evaluations += 1;
+                    stats.transitions += 1;
+                    let tpl = format!("|{{{key}:{a}{w}}}|");
+                    let hist = vec![tpl.clone()];
+                    let r = catch(|| {
+                        let style = ProgressStyle::with_template(&tpl).unwrap().progress_chars("＃－").tick_chars("x ");
+                        let pb = bar_on(&catcher, Some(9), style).with_prefix("pre").with_position(7);
+                        let l = frame_lines(&catcher, &pb);
+                        pb.abandon();
+                        l
+                    });
+                    match r {
+                        Err(p) => stats.violation(Violation { class: format!("panic: {}", panic_class(&p)), config: "keys".into(), history: hist, detail: p }),
+                        Ok(lines) => {
+                            let line = lines.first().cloned().unwrap_or_default();
+                            let field = line.strip_prefix('|').and_then(|l| l.strip_suffix('|')).unwrap_or(&line).to_string();
+                            let cols: usize = field.chars().map(|ch| if ch == '＃' || ch == '－' { 2 } else { 1 }).sum();
+                            let content_cols = if key == "bar" { w / 2 * 2 } else { content.chars().count() };
+                            let want = content_cols.max(w);
+                            let side_ok = match (key, align) {
+                                ("bar", _) => true,
+                                (_, '<') => field.starts_with(&content),
+                                (_, '>') => field.ends_with(&content),
+                                _ => field.trim() == content,
+                            };
+                            if cols != want || !side_ok {
+                                stats.violation(Violation { class: format!("pad: a {{{key}}} field with a width is not exactly that many columns / padded on the wrong side"), config: "keys".into(), history: hist, detail: format!("{:?} is {cols} columns, expected {want}", field) });
+                            } else {
+                                stats.state(hash_of(&("keys", key, w, align)), true);
+                            }
+                        }
+                    }
+                }
+            }
+        }
+    }
     stats.sample(json!({"template": "|{msg:^5!}|", "content": "a日é\u{1b}[31mz\u{1b}[0mb"}));
     stats.sample(json!({"template": "xx{wide_msg:>}", "terminal_width": 7, "content": "日日ab"}));
 }
